@@ -45,6 +45,11 @@ def run(tier):
     r = tlc.model_check('paging', 'Paging128', 'Paging128_mc.cfg', timeout=1800)
     rep.add_tlc(r, 'Paging128_mc')
     rep.model_violation(r, 'Paging128_mc')
+    # vacuity guard: the same model with the lock test on bit 4 must violate LockStable
+    rn = tlc.model_check('paging', 'Paging128', 'Paging128_neg.cfg', timeout=600, coverage=False)
+    rep.add_tlc(rn, 'Paging128_neg(expected violation)')
+    if not any('LockStable' in v for v in rn.violated) and 'LockStable' not in rn.out:
+        raise MachineryError('Paging128_neg: a lock test on the wrong bit no longer violates LockStable (vacuous property?)')
     never = [a for a, (d, t) in r.coverage.items() if t == 0]
     rep.extra['mc_actions_never_taken'] = never
     # (B) recorded traces of the real implementations
